@@ -444,13 +444,13 @@ class Gen:
             cur = lv.block_length
         self.max_bl = max(getattr(self, "max_bl", 0), cur)
         if depth < max_depth:
-            for i in range(r.choice([0, 0, 1, 1, 2, 3])):
+            for i in range(r.choice([0, 0, 1, 1, 2, 3, 4]) if depth == 0 else r.choice([0, 0, 1, 2, 3])):
                 g = Group(self.fresh("g"), 100 + i, r.choice(self.dims))
                 self.mk_level(g, depth + 1, max_depth)
                 lv.groups.append(g)
                 self.stats["groups"] += 1
                 self.stats["depth"] = max(self.stats["depth"], depth + 1)
-        for i in range(r.choice([0, 0, 1, 1, 2])):
+        for i in range(r.choice([0, 0, 1, 1, 2, 3, 4])):
             lv.data.append(Data(self.fresh("d"), 200 + i, r.choice(self.datas)))
             self.stats["data"] += 1
 
